@@ -84,6 +84,24 @@ func Bytes(name string, n int) []byte {
 }
 func String(name string, n int) string { return string(Bytes(name, n)) }
 
+// ByteIn / StringIn: arbitrary bytes drawn from the given set.
+func ByteIn(name string, set string) byte {
+	b := byte(val(name))
+	if !strings.Contains(set, string([]byte{b})) {
+		panic("verifrt: model value outside the declared set for " + name)
+	}
+	return b
+}
+func StringIn(name string, n int, set string) string {
+	b := Bytes(name, n)
+	for _, c := range b {
+		if !strings.Contains(set, string([]byte{c})) {
+			panic("verifrt: model value outside the declared set for " + name)
+		}
+	}
+	return string(b)
+}
+
 // Choose forks over 0..n-1 (natively: the recorded choice).
 func Choose(name string, n int) int {
 	load()
